@@ -3,8 +3,8 @@ import itertools, random
 from .. import core, gen, ref, hist, world as W
 from .c01 import fix_disagreements
 
-MODULES = ['DsdVerif.Props.C02', 'DsdVerif.Props.PyIdent']
-GEN_FILES = ['PyIdentifiers', 'PyFuncs']
+MODULES = ['DsdVerif.Props.C02', 'DsdVerif.Props.PyIdent', 'DsdVerif.Props.PyComplexS3']
+GEN_FILES = ['PyIdentifiers', 'PyFuncs', 'PyComplexS3', 'PyComplexS', 'PySingleton']
 THEOREM_NAMES = ['ckeyLt_irrefl', 'ckeyLt_trans', 'ckeyLt_total', 'ckeyLt_names_first', 'canon_mem_min', 'identifiers_total',
                  'orbit_rotate', 'canon_rot_invariant', 'canon_eq_iff', 'identifiers_existing', 'keys_are_orbit_preserved', 'turns_correct']
 THEOREMS = ['Dsd.C02.' + t for t in THEOREM_NAMES] + ['Dsd.C02.complexRequestFull_eq', 'Dsd.C02.strandRequestFull_eq', 'Dsd.CplxFullL.identifiers_eq'] + \
@@ -15,6 +15,9 @@ THEOREMS = ['Dsd.C02.' + t for t in THEOREM_NAMES] + ['Dsd.C02.complexRequestFul
         'py_ComplexS_identifiers_none', 'py_ComplexS_identifiers_raises', 'py_identifiers_total', 'py_canon_mem_min', 'py_canon_rot_invariant',
         'py_turns_correct', 'py_canon_eq_iff', 'py_canon_registered_or_fresh', 'py_StrandS_identifiers_eq', 'strandRequestFull_eq_py',
         'py_strand_request', 'py_strand_canon_inj', 'ckeyLt_eq', 'sortedBy_eq')]
+# the whole ComplexS.__init__ as written in the source (translator/pycomplex3.py -> Gen/PyComplexS3.lean) and its composition with the translated
+# identifiers and the translated Singleton.__call__: the same name at both sites, exactly the visited rotations registered, the request of the model
+THEOREMS += ['Dsd.PyComplexS3.' + t for t in ['py_init_full_eq', 'py_init_full_asserts', 'py_init_attrs_eq_pymethod', 'py_init_registers_eq_construct', 'py_init_after_identifiers', 'py_complex_request_eq_full']]
 ASSUMPTIONS = [
     'ComplexS.identifiers is hand-modelled (Model/Objects.lean: complexIdentifiers = the loop with early exit on a registered rotation, '
     'minimum by (names, structure) under code-point lexicographic order); Python str/tuple ordering is modelled',
@@ -270,6 +273,8 @@ def run(res, proof):
     # ComplexS.identifiers / StrandS.identifiers as translated from the working tree (Gen/PyIdentifiers.lean) against the real classmethods
     from .pyident_stream import source_derived_pyident
     source_derived_pyident(res, proof)
+    from .pycomplex3_stream import source_derived_pycomplex3
+    source_derived_pycomplex3(res, proof)      # ComplexS.__init__ as translated from the working tree against the real constructor
     res.sample(lines[:14])
 
 
